@@ -1,7 +1,20 @@
 (* C19 -- Distance kernels and grid descriptors equal their mathematical definition.
-   Property theorems only (each is `exact <lemma>` from Proofs/Dist.v or Proofs/Grid.v). *)
-From Coq Require Import Reals List ZArith QArith Lia.
-From Molli Require Import Common.Field3 Common.Field3R Model.Dist Proofs.Dist.
+   Property theorems only (each is `exact <lemma>` from Proofs/Dist.v or Proofs/Grid.v).
+
+   Kernels: over R, about the field-parametric model Model/Dist.v that the correspondence shards execute over Q against
+   (a) molli_xt/distance.cpp rebuilt from source on every run and (b) the shipped extension.
+   Grid descriptors: over Q (every float is a rational), about Model/Grid.v, executed by the shards as well.
+
+   What is NOT proved (label: partial):
+   - IEEE rounding in the C++ kernel, numpy and scipy: compared within a stated tolerance; as the property says, grid points
+     within a rounding band of a sphere surface (and of the cut-off) are left out of the comparison;
+   - scipy.spatial.KDTree is external.  nearest_atom_index / aeif: the theorems are about the model's arg-min, and the
+     indices the real KD-tree returns are CHECKED against the specification inside Coq (nearest_okb, C19_nearest_accept);
+     prune: soundness and the (1+eps) band are proved under the query contract stated as Section hypotheses
+     (C19_prune_partial), and the kept indices observed are checked against that band inside Coq (C19_prune_accept);
+   - sqrt: `euclidean` is sqrt(euclidean2) over R; an observed root is accepted through its specification (C19_sqrt_close). *)
+From Coq Require Import Reals List ZArith QArith Qround Lia.
+From Molli Require Import Common.Field3 Common.Field3R Model.Dist Proofs.Dist Model.Grid Proofs.Grid.
 Import ListNotations.
 
 (* ---- kernels (molli_xt/distance.cpp), over R ------------------------------------------------------------- *)
@@ -76,3 +89,173 @@ Example C19_kernel_example :
   shape (cdist22 (euclidean2 QOps) [] [(1, 1, 1); (0, 0, 0)]%Q) = [0; 2]%nat /\
   shape (cdist32 (euclidean2 QOps) 4 [] [(1, 1, 1)]%Q) = [0; 4; 1]%nat.
 Proof. vm_compute. repeat split; reflexivity. Qed.
+
+(* ---- grid descriptors (molli/descriptor/gridbased.py), over Q ------------------------------------------- *)
+Local Close Scope R_scope.
+Local Open Scope Q_scope.
+
+(* rectangular_grid: for a positive spacing and a non-empty padded box the call succeeds; the number of points is
+   nx*ny*nz; as a set the grid is the Cartesian product of the three axes; no point occurs twice; and the raveling
+   order is y slowest, z fastest (np.meshgrid default indexing + ravel) *)
+Theorem C19_grid_lattice (r1 r2 : qv) (pad s : Q) : 0 < s -> box_ok r1 r2 pad ->
+  exists g, rectangular_grid r1 r2 pad s = Some g /\
+  let '(xs, ys, zs) := grid_axes r1 r2 pad s in
+  length g = (length xs * length ys * length zs)%nat /\
+  (forall x y z, In (x, y, z) g <-> In x xs /\ In y ys /\ In z zs) /\
+  NoDup g /\
+  (forall i j k, (i < length xs)%nat -> (j < length ys)%nat -> (k < length zs)%nat ->
+     nth ((j * length xs + i) * length zs + k) g qvz = (nth i xs 0, nth j ys 0, nth k zs 0)).
+Proof. exact (rectangular_grid_correct r1 r2 pad s). Qed.
+Print Assumptions C19_grid_lattice.
+
+(* one axis [l, r] = [r1 - padding, r2 + padding]: n = floor((r-l)/spacing) + 1 points ... *)
+Theorem C19_grid_count (l r s : Q) : 0 < s -> l <= r ->
+  length (axis_pts l r s) = Z.to_nat (Qfloor ((r - l) / s) + 1) /\ (1 <= Qfloor ((r - l) / s) + 1)%Z.
+Proof. intros Hs Hlr. exact (conj (axis_length l r s Hs Hlr) (axis_n_pos l r s Hs Hlr)). Qed.
+
+(* ... point i is l + o + i*spacing, so consecutive points differ by exactly the spacing ... *)
+Theorem C19_grid_spacing (l r s d : Q) (i : nat) : 0 < s -> l <= r -> (S i < length (axis_pts l r s))%nat ->
+  nth (S i) (axis_pts l r s) d - nth i (axis_pts l r s) d == s.
+Proof. intros Hs Hlr Hi. rewrite axis_length in Hi by assumption. exact (axis_spacing l r s d i Hs Hlr Hi). Qed.
+
+(* ... the lattice is centred: the gap below the first point equals the gap above the last, 0 <= gap < spacing/2 ... *)
+Theorem C19_grid_centred (l r s d : Q) : 0 < s -> l <= r ->
+  let n := length (axis_pts l r s) in let o := axis_off l r s in
+  nth 0 (axis_pts l r s) d - l == o /\ r - nth (n - 1) (axis_pts l r s) d == o /\ 0 <= o /\ o < s / 2.
+Proof. intros Hs Hlr. cbv zeta. rewrite axis_length by assumption. exact (axis_centred l r s d Hs Hlr). Qed.
+
+(* ... strictly increasing (no duplicates), and every point lies in [l, r] *)
+Theorem C19_grid_axis_increasing (l r s d : Q) (i j : nat) : 0 < s -> l <= r -> (i < j)%nat -> (j < length (axis_pts l r s))%nat ->
+  nth i (axis_pts l r s) d < nth j (axis_pts l r s) d.
+Proof. intros Hs Hlr Hij Hj. rewrite axis_length in Hj by assumption. exact (axis_increasing l r s d i j Hs Hlr Hij Hj). Qed.
+
+Theorem C19_grid_contained (r1 r2 : qv) (pad s : Q) (g : list qv) (p : qv) : 0 < s -> box_ok r1 r2 pad ->
+  rectangular_grid r1 r2 pad s = Some g -> In p g ->
+  let '(a1, a2, a3) := r1 in let '(b1, b2, b3) := r2 in let '(x, y, z) := p in
+  (a1 - pad <= x /\ x <= b1 + pad) /\ (a2 - pad <= y /\ y <= b2 + pad) /\ (a3 - pad <= z /\ z <= b3 + pad).
+Proof. exact (rectangular_grid_contained r1 r2 pad s g p). Qed.
+Print Assumptions C19_grid_contained.
+
+(* the floor lemma everything rests on *)
+Theorem C19_floor_bounds (d s : Q) : 0 < s ->
+  inject_Z (Qfloor (d / s)) * s <= d /\ d < (inject_Z (Qfloor (d / s)) + 1) * s.
+Proof. exact (floor_bounds d s). Qed.
+
+(* nearest_atom_index: the result is -1 exactly when every atom is farther than the cut-off; otherwise it is the index
+   of an atom within the cut-off whose distance is minimal.  (Squared distances: C19_cutoff_squares.) *)
+Theorem C19_nearest (atoms : list qv) (cut : Q) (g : qv) :
+  nearest_spec atoms cut g (nearest atoms cut g) /\
+  ((0 <= nearest atoms cut g)%Z <-> exists a, In a atoms /\ d2 a g <= cut * cut).
+Proof. exact (conj (nearest_correct atoms cut g) (nearest_iff atoms cut g)). Qed.
+Print Assumptions C19_nearest.
+
+(* the acceptance test applied to the indices the real KD-tree returned: its meaning, and that it accepts the model *)
+Theorem C19_nearest_accept (band : Q) (atoms : list qv) (cut : Q) (g : qv) (r : Z) :
+  (nearest_okb band atoms cut g r = true ->
+   (r = (-1)%Z /\ forall a, In a atoms -> cut * cut * (1 - band) <= d2 a g) \/
+   (exists i, r = Z.of_nat i /\ (i < length atoms)%nat /\ d2 (nth i atoms qvz) g <= cut * cut * (1 + band) /\
+              forall a, In a atoms -> d2 (nth i atoms qvz) g <= d2 a g * (1 + band))) /\
+  (0 <= band -> band <= 1 -> nearest_okb band atoms cut g (nearest atoms cut g) = true).
+Proof. exact (conj (nearest_okb_sound band atoms cut g r) (nearest_okb_model band atoms cut g)). Qed.
+
+(* d2 is the squared Euclidean distance; comparing a distance with a non-negative cut-off = comparing squares *)
+Theorem C19_d2 (a g : qv) :
+  d2 a g == (let '(a1, a2, a3) := a in let '(g1, g2, g3) := g in
+             (a1 - g1) * (a1 - g1) + (a2 - g2) * (a2 - g2) + (a3 - g3) * (a3 - g3)) /\ 0 <= d2 a g.
+Proof. exact (conj (d2_plain a g) (d2_nonneg a g)). Qed.
+Theorem C19_cutoff_squares (x c : R) : (0 <= x)%R -> (0 <= c)%R -> (sqrt x <= c <-> x <= c * c)%R.
+Proof. exact (sqrt_le_cut x c). Qed.
+
+(* prune (PARTIAL: the KD-tree query is external; its contract is the two hypotheses):
+   no kept point is farther than the cut-off, no dropped point is closer than cut-off/(1+eps), indices ascend *)
+Theorem C19_prune_partial (atoms : list qv) (cut eps : Q) (q : qv -> bool) :
+  (forall g, q g = true -> exists a, In a atoms /\ d2 a g <= cut * cut) ->
+  (forall g, q g = false -> forall a, In a atoms -> cut * cut < d2 a g * ((1 + eps) * (1 + eps))) ->
+  forall grid,
+  (forall i, In i (prune_with q grid) ->
+     exists j a, i = Z.of_nat j /\ (j < length grid)%nat /\ In a atoms /\ d2 a (nth j grid qvz) <= cut * cut) /\
+  (forall j, (j < length grid)%nat -> ~ In (Z.of_nat j) (prune_with q grid) ->
+     forall a, In a atoms -> cut * cut < d2 a (nth j grid qvz) * ((1 + eps) * (1 + eps))) /\
+  increasing_from 0 (prune_with q grid) = true.
+Proof.
+  intros Hs Hc grid.
+  exact (conj (prune_sound atoms cut q Hs grid)
+              (conj (fun j => prune_complete atoms cut eps q Hc grid j) (prune_increasing q grid))).
+Qed.
+Print Assumptions C19_prune_partial.
+
+(* the contract is satisfiable: the exact query keeps exactly the points within the cut-off *)
+Theorem C19_prune_exact (atoms : list qv) (cut : Q) (grid : list qv) (j : nat) : (j < length grid)%nat ->
+  (In (Z.of_nat j) (prune_exact atoms cut grid) <-> exists a, In a atoms /\ d2 a (nth j grid qvz) <= cut * cut).
+Proof. exact (prune_exact_correct atoms cut grid j). Qed.
+
+(* meaning of the acceptance test applied to the index list the real prune returned *)
+Theorem C19_prune_accept (band : Q) (atoms : list qv) (cut eps : Q) (grid : list qv) (kept : list Z) :
+  prune_okb band atoms cut eps grid kept = true ->
+  increasing_from 0 kept = true /\ (forall i, In i kept -> (i < Z.of_nat (length grid))%Z) /\
+  forall j, (j < length grid)%nat ->
+    (In (Z.of_nat j) kept -> exists a, In a atoms /\ d2 a (nth j grid qvz) <= cut * cut * (1 + band)) /\
+    (~ In (Z.of_nat j) kept -> forall a, In a atoms -> cut * cut * (1 - band) <= d2 a (nth j grid qvz) * ((1 + eps) * (1 + eps))).
+Proof. exact (prune_okb_sound band atoms cut eps grid kept). Qed.
+
+(* aso: one value per grid point = the (weighted) conformer average of the occupancy indicator of the union of the
+   van der Waals spheres; unweighted it is the fraction of conformers whose union contains the point *)
+Theorem C19_aso (ens : list (list qv)) (radii : list Q) (w : option (list Q)) (grid : list qv) :
+  length (aso ens radii w grid) = length grid /\
+  (forall k, (k < length grid)%nat ->
+     nth k (aso ens radii w grid) 0 = average w (map (fun atoms => b2q (inside atoms radii (nth k grid qvz))) ens)) /\
+  (forall atoms g, inside atoms radii g = true <-> exists a r, In (a, r) (combine atoms radii) /\ d2 a g <= r * r) /\
+  (forall xs, average w xs == match w with
+                              | None => fold_right Qplus 0 xs / inject_Z (Z.of_nat (length xs))
+                              | Some ws => dotw ws xs / fold_right Qplus 0 ws
+                              end).
+Proof.
+  exact (conj (aso_length ens radii w grid) (conj (aso_nth ens radii w grid)
+        (conj (fun atoms g => inside_iff atoms radii g) (average_spec w)))).
+Qed.
+Print Assumptions C19_aso.
+
+Theorem C19_aso_fraction (ens : list (list qv)) (radii : list Q) (grid : list qv) (k : nat) : (k < length grid)%nat ->
+  nth k (aso ens radii None grid) 0 ==
+  inject_Z (Z.of_nat (length (filter (fun atoms => inside atoms radii (nth k grid qvz)) ens))) / inject_Z (Z.of_nat (length ens)).
+Proof. exact (aso_fraction ens radii grid k). Qed.
+
+(* aeif / atomic_indicator_field: one value per grid point = the (weighted) conformer average of the per-conformer
+   field; conformer c contributes, with ITS coordinates, values and nearest-atom row, the value (partial charge) of
+   a closest atom when the point is inside its van der Waals union and 0 otherwise -- the `nearest >= 0` conjunct of
+   the code is implied as soon as the cut-off is at least every radius (the code passes max(radii)) *)
+Theorem C19_aeif (ens : list (list qv)) (radii : list Q) (values : list (list Q)) (idx : list (list Z)) (w : option (list Q))
+        (grid : list qv) :
+  length (aif ens radii values idx w grid) = length grid /\
+  (forall k, (k < length grid)%nat ->
+     nth k (aif ens radii values idx w grid) 0 = average w (field_rows ens radii values idx k (nth k grid qvz))) /\
+  (forall k g c, (c < length ens)%nat -> (c < length values)%nat -> (c < length idx)%nat ->
+     nth c (field_rows ens radii values idx k g) 0 =
+     field_value (nth c ens []) radii (nth c values []) (nth k (nth c idx []) (-1)%Z) g).
+Proof.
+  exact (conj (aif_length ens radii values idx w grid) (conj (aif_nth ens radii values idx w grid)
+        (fun k g c => field_rows_nth radii k g ens values idx c))).
+Qed.
+Print Assumptions C19_aeif.
+
+Theorem C19_aeif_value (atoms : list qv) (radii values : list Q) (cut : Q) (g : qv) :
+  (forall a rad, In (a, rad) (combine atoms radii) -> 0 <= rad /\ rad <= cut) ->
+  let r := nearest atoms cut g in
+  field_value atoms radii values r g = (if inside atoms radii g then nth (Z.to_nat r) values 0 else 0) /\
+  (inside atoms radii g = true -> (0 <= r)%Z) /\ nearest_spec atoms cut g r.
+Proof.
+  intros Hrad r.
+  destruct (field_value_spec atoms radii values cut g r Hrad (nearest_correct atoms cut g)) as [H1 H2].
+  exact (conj H1 (conj H2 (nearest_correct atoms cut g))).
+Qed.
+Print Assumptions C19_aeif_value.
+
+(* the hypotheses are satisfiable and the models compute: box [-1,1]x[0,1]x[0,0], padding 1/4, spacing 1/2 *)
+Example C19_grid_example :
+  box_ok (-1, 0, 0) (1, 1, 0) (1#4) /\
+  option_map (@length qv) (rectangular_grid (-1, 0, 0) (1, 1, 0) (1#4) (1#2)) = Some 24%nat /\
+  axis_pts (-(5#4)) (5#4) (1#2) = [-(5#4) + 0 * _; _; _; _; _; _] /\
+  nearest [(0, 0, 0); (4, 0, 0)] 2 (3, 0, 0) = 1%Z /\ nearest [(0, 0, 0); (4, 0, 0)] (1#2) (2, 0, 0) = (-1)%Z /\
+  prune_exact [(0, 0, 0)] 1 [(2, 0, 0); (1, 0, 0); (0, 3, 0); (0, 0, 1#2)] = [1; 3]%Z /\
+  aso [[(0, 0, 0)]; [(3, 0, 0)]] [1] None [(0, 0, 1#2); (5, 5, 5)] = [1#2; 0].
+Proof. vm_compute. repeat split; try reflexivity; discriminate. Qed.
